@@ -60,7 +60,7 @@ def leaves():
     for op in OPS:
         for c in (1, 2, 3):
             out.append({"k": "attempts", "op": op, "c": c})
-        for c in (200, 500, 502):
+        for c in (200, 500, 502, 503, 504):
             out.append({"k": "code", "op": op, "c": c})
     for op in ("==", "!="):
         for m in ("GET", "POST"):
